@@ -8,6 +8,7 @@
     substring_not_xpath ne_absent_not_xpath step_matches_eq_xp parser_rejects_outside
     select_eq_xp_step select_eq_xp_chain select_eq_xp_childpath select_eq_xp_union
     select_eq_xp_nonpositional select_eq_xp_nonpositional_default select_eq_xp_attribute select_eq_xp_attribute_step
+    select_eq_xp_chain_attribute select_eq_xp_chain_attribute_default
     pattern_matches_eq_xp
     parser_accepts_subset_partial
 -/
@@ -25,6 +26,7 @@ import Genshi.Lemmas.PathChildPath
 import Genshi.Lemmas.PathUnion
 import Genshi.Lemmas.PathNonPos
 import Genshi.Lemmas.PathAttr
+import Genshi.Lemmas.PathSimpleAttr
 namespace Genshi.Props.C05
 open Genshi Genshi.Path
 
@@ -680,6 +682,14 @@ example : select [[⟨.child, .localName false ['a'], []⟩, ⟨.descendantOrSel
        Node.elem ⟨[], ['c']⟩ [(⟨[], ['k']⟩, ['2'])] []]).flatten (some .generic)
     = [.ev (.start ⟨[], ['c']⟩ [(⟨[], ['k']⟩, ['1'])]), .ev (.end_ ⟨[], ['c']⟩)] := by decide +kernel
 
+theorem attrFlag_of_isAttrName (t : NodeTest) (h : t.isAttrName = true) : t.attrFlag = true := by
+  cases t with
+  | principal b => cases b <;> simp_all [NodeTest.isAttrName, NodeTest.attrFlag]
+  | qprincipal b _ => cases b <;> simp_all [NodeTest.isAttrName, NodeTest.attrFlag]
+  | localName b _ => cases b <;> simp_all [NodeTest.isAttrName, NodeTest.attrFlag]
+  | qname b _ _ => cases b <;> simp_all [NodeTest.isAttrName, NodeTest.attrFlag]
+  | _ => simp [NodeTest.isAttrName] at h
+
 /-! ## Stage 3 for attributes: paths that end in an attribute step -/
 
 /-- **select_eq_xp** for `q/@t`.  Let `q` be empty (the path is `@t`) or any path over the
@@ -705,32 +715,14 @@ theorem select_eq_xp_attribute (q : LocPath) (a : Step) (ns : NsMap) (vs : Vars)
     select [q ++ [a]] ns vs (Node.elem tag attrs kids).flatten (some .generic)
       = Ref.xpSelect [q ++ [a]] ns (toXVars vs) (.elem tag attrs kids) := by
   have hrok : (Node.elem tag attrs kids).ok = true := ok_of_clean _ hcl
-  have hshape := attrShaped_of_isAttrName a.test ns hat
   unfold select
   simp only [pathTest, List.map_cons, List.map_nil, mkMatcher, gSteps_snoc_attr q a ha]
   rw [selectGo_eq_emitV, runTest_genericL,
     attr_run ns vs (attrBase q) a (stepsOk_attrBase ns vs q hq) ha _ hcl
-      (AllNodes.imp (fun n hn => nodeFor_attrBase ns vs q n hn) _ hnodes),
-    emitV_flat _ _ (zipWith_gate_ne_true a.test ns hshape _ _),
-    emitAttr a.test ns _ hshape _ hrok []]
-  unfold Ref.xpSelect
-  have hsel : Ref.nodeSelected [q ++ [a]] ns (toXVars vs) ⟨[], .elem tag attrs kids⟩ = fun _ => false := by
-    funext n
-    simp [Ref.nodeSelected, ha]
-  rw [hsel]
-  apply pick_congr_asel (fun n => nodeOk n) _ _ _ _ _ _ (AllNodes.imp (fun n hn => hn.1) _ hnodes)
-  intro m hm
-  rw [aselM_eq a.test ns _ m hm hat hawf, attrsSelected_single ns (toXVars vs) q a ha]
-  rw [RR_attrBase ns vs q hq tag attrs kids,
-    reach_loc ns (toXVars vs) q _ ⟨m.loc, .elem tag attrs kids⟩ m rfl]
-
-theorem attrFlag_of_isAttrName (t : NodeTest) (h : t.isAttrName = true) : t.attrFlag = true := by
-  cases t with
-  | principal b => cases b <;> simp_all [NodeTest.isAttrName, NodeTest.attrFlag]
-  | qprincipal b _ => cases b <;> simp_all [NodeTest.isAttrName, NodeTest.attrFlag]
-  | localName b _ => cases b <;> simp_all [NodeTest.isAttrName, NodeTest.attrFlag]
-  | qname b _ _ => cases b <;> simp_all [NodeTest.isAttrName, NodeTest.attrFlag]
-  | _ => simp [NodeTest.isAttrName] at h
+      (AllNodes.imp (fun n hn => nodeFor_attrBase ns vs q n hn) _ hnodes)]
+  exact xpSelect_attr_of_marks ns (toXVars vs) q a ha hat hawf tag attrs kids hrok
+    (AllNodes.imp (fun n hn => hn.1) _ hnodes) _
+    (fun x => RR_attrBase ns vs q hq tag attrs kids _)
 
 /-- `@t` alone, with the strategy `Path.__init__` picks for a single step (SingleStepStrategy):
     by `single_eq_generic` it reports what GenericStrategy reports, hence the selection of
@@ -755,6 +747,62 @@ theorem select_eq_xp_attribute_step (a : Step) (ns : NsMap) (vs : Vars)
   simp only [pathTest, List.map_cons, List.map_nil, mkMatcher, hch, Option.getD_some]
   rw [selectGo_eq_emitV, selectGo_eq_emitV, runTest_single', runTest_genericL,
     single_eq_generic_run a false ns vs tag attrs kids hok (fun _ => hflag)]
+
+/-- **select_eq_xp** for `t1/…/tn/@a` under SimplePathStrategy (what `Path.__init__` picks for
+    `a/b/@href`): SimplePathStrategy runs on it as on `t1/…/tn` (`pStep_attr`), reporting the
+    value of the attribute test where it reports `True` there; the rest is as for
+    `select_eq_xp_attribute`. -/
+theorem select_eq_xp_chain_attribute (tests : List NodeTest) (hne : tests ≠ []) (a : Step) (ns : NsMap) (vs : Vars)
+    (ha : a.axis = .attribute) (hat : a.test.isAttrName = true) (hawf : a.test.wf ns = true)
+    (tag : QName) (attrs : AttrList) (kids : List Node)
+    (hcl : (Node.elem tag attrs kids).clean = true)
+    (hnodes : AllNodes (NodeFor (childChain tests) ns vs) (.elem tag attrs kids))
+    (hwf : ∀ t ∈ tests, t.elemWf ns) :
+    select [childChain tests ++ [a]] ns vs (Node.elem tag attrs kids).flatten (some .simple)
+      = Ref.xpSelect [childChain tests ++ [a]] ns (toXVars vs) (.elem tag attrs kids) := by
+  have hrok : (Node.elem tag attrs kids).ok = true := ok_of_clean _ hcl
+  have hop := operand_chain_simple tests hne ns vs tag attrs kids hcl hnodes hwf
+  have hokv := hop.ok
+  have hsel := hop.sel
+  rw [runTest_simple', fragments_chain] at hokv
+  simp only [runTest_simple', fragments_chain] at hsel
+  unfold select
+  simp only [pathTest, List.map_cons, List.map_nil, mkMatcher, fragments_chain_attr tests a ha]
+  rw [selectGo_eq_emitV, runTest_simple', simple_attr_run ns tests hne _ a.test,
+    vals_of_marks _ _ hokv (eventLocs_nodup _ []),
+    zipWith_gateS ns a.test (attrFlag_of_isAttrName a.test hat)]
+  exact xpSelect_attr_of_marks ns (toXVars vs) (childChain tests) a ha hat hawf tag attrs kids hrok
+    (AllNodes.imp (fun n hn => hn.1) _ hnodes) _ (fun x => hsel ⟨x, .elem tag attrs kids⟩)
+
+/-- the same with the strategy `Path.__init__` picks, when SimplePathStrategy supports the path
+    (name / `text()` / `comment()` tests) -/
+theorem select_eq_xp_chain_attribute_default (tests : List NodeTest) (hne : tests ≠ []) (a : Step)
+    (ns : NsMap) (vs : Vars)
+    (ha : a.axis = .attribute) (hat : a.test.isAttrName = true) (hawf : a.test.wf ns = true)
+    (hsup : simpleSupports (childChain tests ++ [a]) = true)
+    (tag : QName) (attrs : AttrList) (kids : List Node)
+    (hcl : (Node.elem tag attrs kids).clean = true)
+    (hnodes : AllNodes (NodeFor (childChain tests) ns vs) (.elem tag attrs kids))
+    (hwf : ∀ t ∈ tests, t.elemWf ns) :
+    select [childChain tests ++ [a]] ns vs (Node.elem tag attrs kids).flatten
+      = Ref.xpSelect [childChain tests ++ [a]] ns (toXVars vs) (.elem tag attrs kids) := by
+  have h := select_eq_xp_chain_attribute tests hne a ns vs ha hat hawf tag attrs kids hcl hnodes hwf
+  have ho : strategyOrder = [.single, .simple, .generic] := by decide
+  have h1 : singleSupports (childChain tests ++ [a]) = false := by
+    cases tests with
+    | nil => exact absurd rfl hne
+    | cons t ts => simp [singleSupports, childChain]
+  have hch : chooseStrategy (childChain tests ++ [a]) = some .simple := by
+    simp [chooseStrategy, ho, List.find?, Strategy.supports, h1, hsup]
+  unfold select at h ⊢
+  simp only [pathTest, List.map_cons, List.map_nil, hch, Option.getD_some] at h ⊢
+  exact h
+
+-- non-vacuity: `a/@k` on <r><a k="1"/><a/><b k="2"/></r>
+example : select [childChain [.localName false ['a']] ++ [⟨.attribute, .localName true ['k'], []⟩]] [] []
+    (Node.elem ⟨[], ['r']⟩ [] [Node.elem ⟨[], ['a']⟩ [(⟨[], ['k']⟩, ['1'])] [], Node.elem ⟨[], ['a']⟩ [] [],
+       Node.elem ⟨[], ['b']⟩ [(⟨[], ['k']⟩, ['2'])] []]).flatten
+    = [.attrs [(⟨[], ['k']⟩, ['1'])]] := by decide +kernel
 
 -- non-vacuity: `.//@k` on <r k="0"><a k="1"><b/></a><c j="2"/></r> yields the two k attributes
 example : select [[⟨.self, .node, []⟩, ⟨.descendantOrSelf, .node, []⟩, ⟨.attribute, .localName true ['k'], []⟩]] [] []
